@@ -108,6 +108,16 @@ fn seqs<C: CI>(ctx: &mut Ctx) {
             roundtrip_seq::<C>(ctx, &mk::<C>(&m), &m, "parsed-huge");
             let p = Padded::<C>::new(&mut ctx.rng, 1 + k % (noff - 1).max(1), &m, 2);
             roundtrip_seq::<C>(ctx, &p.slice().to_owned(), &m, "sliced-and-copied-huge");
+            // shortened in place: the dead bits after the end hold whatever was there
+            let mut longer = m.clone();
+            let maxc = *a.codes().iter().max().unwrap();
+            longer.extend(vec![maxc; 1 + k % 40]);
+            let mut e = mk::<C>(&longer);
+            e.truncate(n);
+            roundtrip_seq::<C>(ctx, &e, &m, "truncated-huge");
+            let mut e2 = mk::<C>(&longer);
+            e2.remove(n..);
+            roundtrip_seq::<C>(ctx, &e2, &m, "removed-suffix-huge");
             cell!(ctx, "{name}/huge/2^{}", usize::BITS - n.leading_zeros());
         }
     });
